@@ -42,7 +42,13 @@ def _ps(spelling: str) -> tuple[int, int]:
     return int(p), int(s)
 
 
-def _values(fam: str, spelling: str):
+BOUND_PATHS = ("pyformat", "pyformat_dict", "qmark", "write_pandas")
+
+
+def _values(fam: str, spelling: str, dollar: bool = False):
+    if fam == "text" and dollar:
+        # `$word` in a value that is bound (not written into the statement text) is data like anything else
+        return st.one_of(gv.text(8, dollar=True), st.tuples(gv.text(3), st.sampled_from(["$x", "$price", "$1", "$V1", "$_a", "$$", "$"]), gv.text(3)).map("".join))
     if fam == "bool":
         return st.booleans()
     if fam == "int":
@@ -102,11 +108,14 @@ def _case(draw, tier):
         fam = draw(st.sampled_from(sorted(FAMILIES)))
         cols.append([fam, draw(_spelling(fam))])
     nrows = draw(st.integers(1, 6 if tier == "quick" else 25))
+    dollar = path in BOUND_PATHS and draw(st.booleans())
+    if dollar and not any(f == "text" for f, _ in cols):
+        cols[0] = ["text", draw(_spelling("text"))]
     rows = []
     for _ in range(nrows):
         row = []
         for fam, sp in cols:
-            v = draw(st.one_of(st.none(), _values(fam, sp), _values(fam, sp), _values(fam, sp)))
+            v = draw(st.one_of(st.none(), _values(fam, sp, dollar), _values(fam, sp, dollar), _values(fam, sp, dollar)))
             row.append(v if (isinstance(v, dict) and "$json" in v) else enc(v))
         rows.append(row)
     return {
@@ -117,6 +126,7 @@ def _case(draw, tier):
         "tz_offset": draw(st.sampled_from([0, 0, 330, -480, 60])),
         "wp_opts": draw(st.sampled_from(["plain", "db_schema", "auto_create"])),
         "wp_object_ints": draw(st.sampled_from([False, False, False, True])),
+        "wp_chunk": draw(st.sampled_from([None, None, 1, 2, 3, 4])),
     }
 
 
@@ -269,7 +279,7 @@ def run_roundtrip(case, ctx: Ctx) -> None:
                 "number_p0": lambda: isinstance(v, int) and not isinstance(v, bool) and abs(v) < 10 ** _ps(sp)[0],
                 "number_ps": lambda: isinstance(v, Decimal) and v == v.quantize(Decimal(1).scaleb(-_ps(sp)[1]), context=__import__("decimal").Context(prec=80)) and v.copy_abs() < Decimal(10) ** (_ps(sp)[0] - _ps(sp)[1]),
                 "float": lambda: isinstance(v, float),
-                "text": lambda: isinstance(v, str) and len(v) <= 40 and "$" not in v and "\x00" not in v,
+                "text": lambda: isinstance(v, str) and len(v) <= 40 and ("$" not in v or path in BOUND_PATHS) and "\x00" not in v,
                 "date": lambda: type(v) is dt.date,
                 "time": lambda: isinstance(v, dt.time),
                 "ts_ntz": lambda: isinstance(v, dt.datetime) and v.tzinfo is None,
@@ -383,6 +393,11 @@ def run_roundtrip(case, ctx: Ctx) -> None:
                 else:
                     kw = {"auto_create_table": True}
                     ctx.cls("write_pandas:auto_create")
+            if case.get("wp_chunk") is not None:
+                if not isinstance(case["wp_chunk"], int) or case["wp_chunk"] < 1:
+                    raise InvalidCase()
+                kw["chunk_size"] = case["wp_chunk"]
+                ctx.cls("write_pandas:chunk_size" + (":smaller-than-frame" if case["wp_chunk"] < len(rows) else ""))
             try:
                 res = fakesnow.fakes.write_pandas(conn, df, "T", **kw)
             except Exception as e:
